@@ -855,6 +855,13 @@ fn skin_tokens(s: &SkinFile) -> Value {
         SkinFile::Old(o) => format!("old {}", o.header.bone_count_max),
     };
     o.insert("header".into(), same(&hdr));
+    // the header scalars a layout family carries whatever the version (new: vertex_count, old: bone_count_max): a conversion
+    // inside one family has to keep them (round 5)
+    let scal = match s {
+        SkinFile::New(n) => format!("new {}", n.header.vertex_count),
+        SkinFile::Old(o) => format!("old {}", o.header.bone_count_max),
+    };
+    o.insert("hdr_scalars".into(), same(&scal));
     Value::Object(o)
 }
 fn build_skin(c: &Value, seed: u64, label: &str) -> SkinFile {
